@@ -1021,13 +1021,29 @@ class EventListenerPool(ProcessGroupBase):
                 'pool:%(pool_name)s poolserial:%(pool_serial)s '
                 'eventname:%(event_name)s len:%(len)s\n%(payload)s' % D)
 
+    def _subscription_types(self):
+        # the configured event types without repetitions and without any
+        # type whose supertype is also configured: the supertype's
+        # subscription already receives those events, and a second callback
+        # would buffer (and deliver) each of them twice
+        pool_events = self.config.pool_events
+        event_types = []
+        for event_type in pool_events:
+            if event_type in event_types:
+                continue
+            if [ t for t in pool_events
+                 if t is not event_type and issubclass(event_type, t) ]:
+                continue
+            event_types.append(event_type)
+        return event_types
+
     def _subscribe(self):
-        for event_type in self.config.pool_events:
+        for event_type in self._subscription_types():
             events.subscribe(event_type, self._acceptEvent)
         events.subscribe(events.EventRejectedEvent, self.handle_rejected)
 
     def _unsubscribe(self):
-        for event_type in self.config.pool_events:
+        for event_type in self._subscription_types():
             events.unsubscribe(event_type, self._acceptEvent)
         events.unsubscribe(events.EventRejectedEvent, self.handle_rejected)
 
